@@ -1051,6 +1051,12 @@ pub fn jobs(prop: &str, ctx: &Ctx) -> Vec<Job> {
                     }
                 }
             }
+            // H2PE with mode >= 100 and K far from N-K: the squeeze of step 4.2 uses n1 and
+            // n2 separately, which the near-symmetric grid members barely exercise (added
+            // after seeded change C02-r11k02m1 was reported at a margin of only 3.35)
+            for t in [[10_000u64, 3000, 1000], [10_000, 7000, 1000], [5000, 600, 2000], [100_000, 20_000, 1500]] {
+                v.push(Job::Disc(DistSpec::i(Family::Hypergeometric, &t, &[]), n_grid));
+            }
             // exhaustive small sets of the statement, through the exact lattice
             let m = if thorough { 1 << 16 } else { 1 << 14 };
             let mut small = small_hyper_all();
